@@ -122,6 +122,9 @@ def main():
     ck.set("worker_counts", s["worker_counts"])
     ck.set("hooked_runs", s["hooked_runs"] * 2)
     ck.set("hooks_present", hooks)
+    if s["error_count_drift"]:
+        ck.add("model_drift_cases", s["error_count_drift"])
+        ck.notes.append("model drift: the error count in the message differs from the number of failing files in %d runs" % s["error_count_drift"])
 
     if hooks:
         if s["hook_events"] < 8 * s["hooked_runs"] or s["traced_runs"] == 0:
@@ -132,7 +135,7 @@ def main():
         nlines = trace.count("\n")
         kinds = set(re.findall(r'"ev":"([a-z-]+)"', trace))
         need = {"reset", "event", "start", "modtime", "hash", "write", "error", "post", "remove", "end", "workers-done", "close-errs", "errs-drained", "exit"}
-        if not need <= kinds:
+        if not need <= kinds and s["fails"] == 0:
             raise vlib.InfraError("hook events never seen: %s" % sorted(need - kinds))
         if s["fails"] == 0:
             tr = vlib.tlc("TraceGenerate", "Generate_trace.cfg", files={"trace.ndjson": trace}, workers=1, timeout=2400, xmx="8g")
